@@ -27,7 +27,7 @@ SPEC = {
              "multi-block jobs: 2-5 blocks separated by byte-aligned gaps or placed in banks; every job formatted in 17 "
              "format spellings; non-trivial = (length, content kind) pair whose formats were all decoded, with L > 0; "
              "distinct = distinct (layout, content)"),
-    "monitors": ["decode-equals-bits", "intelhex-records", "multi-block", "real-binary-files"],
+    "monitors": ["decode-equals-bits", "intelhex-records", "multi-block", "real-binary-files", "fill-only"],
     "min_nontrivial": {"quick": 3000, "thorough": 10000},
     "assumptions": ["decoders are trusted"],
 }
@@ -247,8 +247,34 @@ def multi_block(rng):
     return "\n".join(lines) + "\n", out
 
 
+def fill_only_cases(ctx, worker, rng):
+    """Outputs that consist of bank fill alone (no instruction, data or label is emitted: the span list is empty while
+    the bit vector is not), and the completely empty program: every format must still carry exactly those bits."""
+    for size in (0, 1, 2, 3, 4, 16, 17, 33):
+        for body in ("", "#res 1\n", "k = 5\n", "#res %d\n" % size):
+            if size == 0:
+                src = body if body != "#res 1\n" and body != "#res 0\n" else ""
+                bits = ""
+            else:
+                src = "#bankdef b\n{\n    #addr 0\n    #size %d\n    #outp 0\n    #fill\n}\n" % size + body
+                bits = "0" * (8 * size)
+            job = lib.asm_job({"main.asm": src}, want=["spans"], formats=F.FORMATS)
+            rec = worker.run(job)
+            ctx.evaluated()
+            ctx.monitor("fill-only")
+            if lib.abnormal(rec) or not lib.ok(rec):
+                ctx.count("fill-only-rejected")
+                continue
+            if judge(ctx, job, rec, bits, "fill-only"):
+                ctx.nontrivial_case(("fill", size, body).__repr__().encode())
+                if size in (0, 4, 17):
+                    real_cli_round(ctx, job, rec, rng)
+
+
 def shard(ctx):
     worker = ctx.worker("rel")
+    if ctx.shard == 2 % ctx.nshards:
+        fill_only_cases(ctx, worker, ctx.rng(0, "fill"))
     chk = ctx.worker("chk") if ctx.tier == "thorough" else None
     kinds = ["random"] if ctx.tier == "quick" else ["random", "ones", "sparse"]
     lengths = list(range(0, 4097))
